@@ -530,7 +530,7 @@ func runC07(cfg Config) {
 			}
 		}
 	}
-	runPoolTraces(cfg, rep, []string{"VerifyIndex", "ChopFile", "Copy"}, cfg.N(360, 9000), 7)
+	runPoolTraces(cfg, rep, []string{"VerifyIndex", "ChopFile", "Copy", "ChunkStream", "PlanValidate"}, cfg.N(450, 11000), 7)
 	c07CLI(cfg, rep, rng, monitor)
 	rep.Write(cfg.Out)
 }
@@ -820,7 +820,7 @@ func runC06(cfg Config) {
 			}
 		}
 	}
-	runPoolTraces(cfg, rep, []string{"ChopFile", "Copy"}, cfg.N(300, 6000), 6)
+	runPoolTraces(cfg, rep, []string{"ChopFile", "Copy", "ChunkStream"}, cfg.N(330, 6600), 6)
 	c06CLI(cfg, rep, rng, monitor)
 	rep.Write(cfg.Out)
 }
